@@ -26,9 +26,14 @@ def check_reader_agreement(chk) -> None:
     b = repo.func(P2, "parse_pdb_atoms")
     chk.note_function(a)
     chk.note_function(b)
-    sa_, sb = line_slices(a.node), line_slices(b.node)
+    sa_, how_a = c08.reader_slices(chk, "v1")
+    sb, how_b = c08.reader_slices(chk, "v2")
+    if "none" in (how_a, how_b):
+        chk.error("pdb-slices-agree", (a if how_a == "none" else b).where, "the columns a PDB reader takes its fields from could not be established (not evaluable on probe lines, no `line[a:b]` subscripts found)")
     for var, field in sp["parser_names"].items():
-        ga, gb = sa_.get(var), sb.get(field)
+        if "none" in (how_a, how_b):
+            break
+        ga, gb = sa_.get(field), sb.get(field)
         chk.expect(
             ga is not None and ga == gb,
             "pdb-slices-agree",
@@ -40,10 +45,15 @@ def check_reader_agreement(chk) -> None:
             found=list(gb) if gb else None,
         )
     for field, want in sp["atom"].items():
+        if how_b == "none":
+            break
         gb = sb.get(field)
         chk.expect(gb == tuple(want), "pdb-slices-v2", b.where, f"parser_v2: {field} = columns {want[0] + 1}-{want[1]}", f"parser_v2 reads {field} from {gb}, the format says line[{want[0]}:{want[1]}]", K(b, f"column:{field}"), expected=want, found=list(gb) if gb else None)
-    m2 = [n for n in ast.walk(b.node) if isinstance(n, ast.Assign) and norm(n.targets[0]) == "current_model" and isinstance(n.value, ast.Call)]
-    ok = any("line[10:14]" in norm(n.value) for n in m2)
+    if how_b == "probe":
+        ok = sb.get("model") == tuple(sp["model_serial"])
+    else:
+        m2 = [n for n in ast.walk(b.node) if isinstance(n, ast.Assign) and norm(n.targets[0]) == "current_model" and isinstance(n.value, ast.Call)]
+        ok = any("line[10:14]" in norm(n.value) for n in m2)
     chk.expect(ok, "pdb-slices-v2", b.where, "parser_v2: MODEL serial from columns 11-14", "parser_v2 does not read the MODEL serial from line[10:14]", K(b, "column:model"))
     # record filter of parser_v2: which classes of line yield an atom record - the loop body evaluated on one representative per class
     _record_filter(chk, b, sp)
@@ -161,7 +171,17 @@ def check_item_preference(chk) -> None:
     # grouping of the table-level model
     rs = repo.func(T2, "Structure.residues")
     chk.note_function(rs)
-    _group_columns(chk, rs)
+    from checks import c15e
+
+    decided = False
+    try:
+        decided = c15e.check_group_columns_eval(chk, rs)
+    except AnalysisError:
+        raise
+    except Exception as ex:
+        chk.ok("group-columns-eval", rs.where, f"evaluation of Structure.residues failed internally ({type(ex).__name__}): the path rule decides")
+    if not decided:
+        _group_columns(chk, rs)
     # atom name / coordinates
     at = repo.func(T2, "Atom.coordinates")
     chk.note_function(at)
@@ -322,84 +342,12 @@ def check_connectivity(chk) -> None:
 
 
 def check_chi(chk) -> None:
-    repo = chk.repo
-    sp = spec("iupac_torsions.json")
-    got = {}
-    for kind, q in (("purine", "Residue3D.__chi_purine"), ("pyrimidine", "Residue3D.__chi_pyrimidine")):
-        fi = repo.func(T1, q)
-        chk.note_function(fi)
-        atoms = [a.args[0].value for a in astq.calls(fi.node, "find_atom") if a.args and isinstance(a.args[0], ast.Constant)]
-        got[("v1", kind)] = atoms
-        chk.expect(atoms == sp["chi"][kind], "chi-atoms", fi.where, f"{kind} chi = {'-'.join(atoms)}", f"{kind} chi uses {atoms}, IUPAC says {sp['chi'][kind]}", K(fi, "atoms"), expected=sp["chi"][kind], found=atoms)
-        rets = [r for r in ast.walk(fi.node) if isinstance(r, ast.Return) and isinstance(r.value, ast.Call)]
-        chk.expect(len(rets) == 1 and norm(rets[0].value) == "torsion_angle(*atoms)", "chi-atoms", fi.where, "chi = torsion over the four atoms in order", "chi is not torsion_angle(*atoms) in list order", K(fi, "call"))
-    ta = repo.func(T2, "Structure.torsion_angles")
-    chk.note_function(ta)
-    chis = [c for c in astq.calls(ta.node, "calculate_torsion_angle") if len(c.args) == 4 and all(norm(a).endswith(".coordinates") for a in c.args)]
-    var_atom = {}
-    for s in ast.walk(ta.node):
-        if isinstance(s, ast.Assign) and isinstance(s.targets[0], ast.Name):
-            m = astq.match(s.value, "residue.find_atom(A_)")
-            if m and isinstance(m["A_"], ast.Constant):
-                var_atom[s.targets[0].id] = m["A_"].value
-    quads = sorted([var_atom.get(norm(a).split(".")[0]) for a in c.args] for c in chis)
-    want = sorted([sp["chi"]["purine"], sp["chi"]["pyrimidine"]])
-    chk.expect(quads == want, "chi-atoms", ta.where, "tertiary_v2 chi quadruples = IUPAC (purine N9/C4, pyrimidine N1/C2)", f"tertiary_v2 chi quadruples are {quads}", K(ta, "chi"), expected=want, found=quads)
-    chk.expect(quads == sorted([got[("v1", "purine")], got[("v1", "pyrimidine")]]), "chi-agree", ta.where, "both implementations use the same chi atoms", "tertiary.py and tertiary_v2.py use different chi atoms", "chi:agree")
-    # which residues are purines
-    pu = astq.first_assign(ta.node, "purine_bases")
-    py = astq.first_assign(ta.node, "pyrimidine_bases")
-    f = Folder(repo, T2)
-    chk.expect(pu is not None and py is not None and f.try_fold(pu) == ["A", "G", "DA", "DG"] and f.try_fold(py) == ["C", "U", "T", "DC", "DT"], "chi-bases", ta.where, "purines A/G/DA/DG, pyrimidines C/U/T/DC/DT", "the purine/pyrimidine name lists changed", K(ta, "bases"))
-    chi = repo.func(T1, "Residue3D.chi")
-    chk.note_function(chi)
-    # dispatch evaluated for every class of base letter x (which of the two definitions can be evaluated)
-    from sa.blockeval import BlockEval, Unknown
+    """chi atoms / dispatch / agreement of the two implementations: decided at fact level by checks/c18e.py (Residue3D.chi evaluated on
+    one-letter names x atom sets through the helpers it calls, tertiary_v2.Structure.torsion_angles on stub segments); the pinned forms
+    that used to live here are its fallback there.  Shared with C18 and C03."""
+    from checks import c18e
 
-    nan = float("nan")
-
-    class _Self:
-        _folder_stub = True
-
-        def __init__(s2, letter, pu, py):
-            s2.one_letter_name = letter
-            s2._pu, s2._py = pu, py
-            s2.calls = []
-            setattr(s2, "__chi_purine", lambda: (s2.calls.append("pu"), s2._pu)[1])
-            setattr(s2, "__chi_pyrimidine", lambda: (s2.calls.append("py"), s2._py)[1])
-
-    bad = {}
-    try:
-        for letter in ("A", "G", "a", "C", "U", "T", "u", "N", "?"):
-            for pu, py in ((1.25, -2.5), (nan, -2.5), (1.25, nan), (nan, nan)):
-                me = _Self(letter, pu, py)
-                kind, val = BlockEval(repo, T1, {"self": me}).run(chi.node.body)
-                up = letter.upper()
-                want = pu if up in ("A", "G") else (py if up in ("C", "U", "T") else (pu if pu == pu else py))
-                same = (val != val and want != want) or val == want
-                if kind != "return" or not same:
-                    bad[f"{letter}: purine def {'n/a' if pu != pu else 'ok'}, pyrimidine def {'n/a' if py != py else 'ok'}"] = ("purine" if val == 1.25 else "pyrimidine" if val == -2.5 else repr(val))
-        chk.expect(
-            not bad,
-            "chi-dispatch",
-            chi.where,
-            "A/G use the purine definition, C/U/T the pyrimidine one, unknown names the purine definition when it can be evaluated and else the pyrimidine one (9 letters x 4 availability cases evaluated)",
-            "Residue3D.chi picks the wrong definition: " + "; ".join(f"{k} -> {v}" for k, v in list(bad.items())[:3]),
-            K(chi, "dispatch"),
-            found=bad,
-        )
-    except Unknown as ex:
-        chk.error("chi-dispatch", chi.where, f"chi dispatch not evaluable: {ex}")
-    except Exception as ex:
-        chk.violation("chi-dispatch", chi.where, f"chi dispatch raises {type(ex).__name__} ({ex}) for some base letter", K(chi, "dispatch-raises"))
-    # backbone torsions of tertiary_v2
-    td = None
-    for s in ast.walk(ta.node):
-        if isinstance(s, ast.Assign) and norm(s.targets[0]) == "torsion_definitions":
-            td = Folder(repo, T2).try_fold(s.value)
-    want_b = {k: [tuple(x) for x in v] for k, v in sp["backbone"].items()}
-    got_b = {k: v for k, v in (td or {}).items() if k != "chi"}
-    chk.expect(got_b == want_b and (td or {}).get("chi", 0) is None, "backbone-atoms", ta.where, "alpha..zeta atom quadruples equal the IUPAC table", "backbone torsion definitions differ from IUPAC", K(ta, "backbone"), expected={k: want_b[k] for k in want_b if got_b.get(k) != want_b[k]}, found={k: got_b.get(k) for k in want_b if got_b.get(k) != want_b[k]})
+    c18e.check_chi(chk)
 
 
 def run(chk) -> None:
@@ -410,14 +358,14 @@ def run(chk) -> None:
     )
     chk.trusted = ["CPython ast", "pandas groupby/sort semantics", "wwPDB column table and IUPAC torsion table in spec/"]
     chk.assumptions = ["structures without alternate locations", "label and auth atom/residue names are equal in the quantified tables", "sign of the torsion is C18's business (magnitudes here)"]
-    chk.robust |= {"pdb-slices-agree", "pdb-slices-v2", "pdb-record-filter", "pdb-decode-v2", "int-parsing", "connect-threshold", "connect-agree", "connect-atoms", "chi-atoms", "chi-agree", "backbone-atoms", "pdb-columns", "group-columns", "connect-order", "null-markers-v2"}
+    chk.robust |= {"pdb-slices-agree", "pdb-slices-v2", "pdb-record-filter", "pdb-decode-v2", "int-parsing", "connect-threshold", "connect-agree", "connect-atoms", "chi-atoms", "chi-agree", "chi-dispatch", "chi-bases", "backbone-atoms", "pdb-columns", "group-columns", "connect-order", "null-markers-v2"}
     check_reader_agreement(chk)
     check_item_preference(chk)
     check_connectivity(chk)
     check_chi(chk)
     c08.check_pdb_columns(chk)
     c08.check_parse_pdb(chk)
-    for rule, n in (("pdb-slices-agree", 9), ("pdb-slices-v2", 15), ("connect-threshold", 2), ("chi-atoms", 4), ("prefer-auth", 6)):
+    for rule, n in (("pdb-slices-agree", 9), ("pdb-slices-v2", 15), ("connect-threshold", 2), ("chi-atoms", 2), ("prefer-auth", 6)):
         chk.floor(rule, n)
 
 
